@@ -173,6 +173,10 @@ func (pl *LowNodeLoad) processOneNodePool(ctx context.Context, nodePool *desched
 	logUtilizationCriteria(nodePool.Name, "Criteria for nodes under low thresholds and above high thresholds", lowThresholds, highThresholds,
 		prodLowThresholds, prodHighThresholds, len(lowNodes), len(sourceNodes), len(prodLowNodes), len(prodHighNodes), len(bothLowNodes), len(nodes))
 
+	// a node that is not above its high threshold in this round interrupts its run of consecutive abnormal rounds
+	markNodesAsNormalExcept(nodes, sourceNodes, pl.nodeAnomalyDetectors)
+	markNodesAsNormalExcept(nodes, prodHighNodes, pl.prodAnomalyDetectors)
+
 	if len(sourceNodes) == 0 && len(prodHighNodes) == 0 {
 		klog.V(4).InfoS("All nodes are under target utilization, nothing to do here", "nodePool", nodePool.Name)
 		return nil
@@ -263,6 +267,21 @@ func (pl *LowNodeLoad) processOneNodePool(ctx context.Context, nodePool *desched
 		processedNodes.Insert(v.node.Name)
 	}
 	return nil
+}
+
+func markNodesAsNormalExcept(nodes []*corev1.Node, abnormalNodes []NodeInfo, nodeAnomalyDetectors *gocache.Cache) {
+	abnormal := sets.NewString()
+	for _, v := range abnormalNodes {
+		abnormal.Insert(v.node.Name)
+	}
+	for _, node := range nodes {
+		if abnormal.Has(node.Name) {
+			continue
+		}
+		if obj, ok := nodeAnomalyDetectors.Get(node.Name); ok {
+			obj.(anomaly.Detector).Mark(true)
+		}
+	}
 }
 
 func resetNodesAsNormal(lowNodes []NodeInfo, nodeAnomalyDetectors *gocache.Cache) {
